@@ -51,6 +51,23 @@ class FakeClock:
     def sleep(self, _s):
         pass
 
+    # the other clocks of the module `time`, consistent with time(): the monotonic clock runs at the same rate from
+    # an origin of its own - a host that booted a few seconds before the clock was first asked (a valid environment)
+    def monotonic(self):
+        if not hasattr(self, "boot"):
+            self.boot = self.cur - 7
+        return self.cur - self.boot
+
+    perf_counter = monotonic
+
+    def time_ns(self):
+        return int(self.cur * 10 ** 9)
+
+    def monotonic_ns(self):
+        return int(self.monotonic() * 10 ** 9)
+
+    perf_counter_ns = monotonic_ns
+
 
 class _FakeSocket:
     def __init__(self, net):
